@@ -131,6 +131,26 @@ func PanicSite(skip int) (site, where string) {
 	return "outside-library:" + first, ""
 }
 
+// OutermostLibSite returns the outermost frame of the current panic that belongs to the
+// library under test: the API call that was in progress. It identifies findings whose
+// innermost frame is arbitrary (a step budget trips wherever the count happens to run out).
+func OutermostLibSite(skip int) string {
+	pcs := make([]uintptr, 512)
+	n := runtime.Callers(skip, pcs)
+	frames := runtime.CallersFrames(pcs[:n])
+	last := ""
+	for {
+		f, more := frames.Next()
+		if strings.Contains(f.Function, "go-text/typesetting/") && !strings.Contains(f.Function, "/verifsim.") {
+			last = f.Function[strings.Index(f.Function, "go-text/typesetting/")+len("go-text/typesetting/"):]
+		}
+		if !more {
+			break
+		}
+	}
+	return last
+}
+
 func trimPath(p string) string {
 	for _, m := range []string{"/typesetting/", "/repo/"} {
 		if i := strings.LastIndex(p, m); i >= 0 {
